@@ -104,7 +104,9 @@ CallFailed(props, cfg, S, e) ==
       bound  == maxs >= 0 => Size(mem2) <= MaxOf(maxs, Size(mem))
       hitKeeps == class = "hit" => V = {}
       noOverflowKeeps == (maxs > 0 /\ Cardinality(mid) <= maxs) => V = {}
-      policy == (overfl /\ ~S.g[i].taint /\ Dom(mem) # {}) =>
+      \* (entries that came in by a bulk load have no recorded use: the recency / frequency policies are not judged while
+      \* such entries may be resident; "exactly one" of the random policy does not depend on recorded uses)
+      policy == (overfl /\ (~S.g[i].taint \/ alg = "rr") /\ Dom(mem) # {}) =>
              CASE alg = "lru" -> V = {ArgMin(Dom(mem), S.g[i].last)}
                [] alg = "mru" -> V = {ArgMax(Dom(mem), S.g[i].last)}
                [] alg = "lfu" -> V # {} /\ \A v \in V : \A w \in Dom(mem2) : U[v] <= U[w]
